@@ -118,6 +118,10 @@ func directedC11() []runnable {
 		&NICase{Kind: "n", GVars: lists, Tasks: []NITask{
 			{Name: "t0", Dir: "d1", Vars: []Entry{shv("P", "pwd")}},
 			{Name: "t1", Dir: "d2", Vars: []Entry{shv("P", "pwd")}}}, Order: []int{0, 1}, Target: 1},
+		// the same sh: ENV entry in two tasks that differ only in their dir: (the environment of an env
+		// entry's command has no TASK= in it, so only the directory tells the two executions apart):
+		// by two Run calls, through cmds:, and concurrently through deps:
+		envDirCase(lists, ""), envDirCase(lists, "cmds"), envDirCase(lists, "deps"),
 		&NICase{Kind: "n", GVars: lists, Tasks: []NITask{
 			{Name: "t0", Vars: []Entry{shv("S", "echo s$TASK")}},
 			{Name: "t1", Vars: []Entry{shv("S", "echo s$TASK")}}}, Order: []int{0, 1}, Target: 1},
@@ -150,6 +154,12 @@ func directedC11() []runnable {
 			{Name: "t0", Caller: true, Tag: "A", List: "LA"},
 			{Name: "t1", Caller: true, Tag: "B", List: "LB"}}, Order: []int{0, 1}, Target: 1},
 	}
+}
+
+func envDirCase(lists []Entry, combine string) *NICase {
+	return &NICase{Kind: "n", GVars: lists, Combine: combine, Tasks: []NITask{
+		{Name: "t0", Dir: "d1", Env: []Entry{shv("E2", "pwd")}},
+		{Name: "t1", Dir: "d2", Env: []Entry{shv("E2", "pwd")}}}, Order: []int{0, 1}, Target: 1}
 }
 
 func dfrCase(lists []Entry, combine string) *NICase {
